@@ -77,7 +77,12 @@ func (h *JSONHybridHandler) Handle(ctx context.Context, r slog.Record) (err erro
 
 	bufTextHdlr.reset()
 
-	r.AddAttrs(h.textAttrs...)
+	if len(h.textAttrs) > 0 {
+		// Clone the record before modifying it, since r shares the storage of
+		// its attributes with the copies that other handlers may have.
+		r = r.Clone()
+		r.AddAttrs(h.textAttrs...)
+	}
 
 	err = bufTextHdlr.handler.Handle(ctx, r)
 	if err != nil {
